@@ -102,6 +102,11 @@ func c20Run(r *simkit.Run) {
 	stcache := []int{0, 1, 100}[r.Draw("state_cache", 0, 2)]
 
 	sys, err := openDBSys(disk, stcache)
+	if sys != nil {
+		// the block-write state cache launch gives every new block (1: every Set evicts, deterministically)
+		sys.bwCache = []int{0, 1, 1, 100}[r.Draw("block_write_state_cache", 0, 3)]
+	}
+
 	if err != nil {
 		panic(err)
 	}
@@ -126,9 +131,29 @@ func c20Run(r *simkit.Run) {
 
 	reopenPoints := 0
 
+	// half of the histories are re-opened at every quiescent point (the enumeration); in the others the process
+	// lives longer - its caches age over several blocks and merges - and is re-opened at tape-chosen points only
+	everyPoint := r.Flag("reopen_at_every_point")
+
 	// every quiescent point: snapshot, clean close, reopen with launch's sequence, snapshot, compare
 	reopen := func(where string) {
 		u := universeOf(chain)
+
+		if !everyPoint && !r.Chance(1, 3) {
+			// the process lives on: it is only read (which also warms its caches) and compared with the model
+			r.Probe("quiescent_point_without_reopen")
+
+			got, err := actualReads(sys.center, u)
+			if err != nil {
+				r.Fail("read-error", "before-close", "%s: %v", where, err)
+			}
+
+			if d := got.diff(model.expected(u)); d != "" {
+				r.Fail("reads-differ-from-model", "before-close", "%s: the reads of the running process differ from the model: %s", where, d)
+			}
+
+			return
+		}
 
 		before, err := actualReads(sys.center, u)
 		if err != nil {
@@ -157,6 +182,7 @@ func c20Run(r *simkit.Run) {
 		}
 
 		nsys.disk.NoLog = true
+		nsys.bwCache = sys.bwCache
 		sys = nsys
 		reopenPoints++
 		r.Fault("clean_close_reopen")
